@@ -13,6 +13,7 @@ from mdpax.core.solver import (
     SolverState,
 )
 from mdpax.utils.checkpointing import CheckpointMixin
+from mdpax.utils import _verif
 from mdpax.utils.logging import get_convergence_format
 from mdpax.utils.types import (
     ActionSpace,
@@ -498,10 +499,14 @@ class ValueIteration(Solver, CheckpointMixin):
             SolverState containing final values [n_states], optimal policy [n_states, action_dim],
             and SolverInfo including iteration count
         """
+        if _verif.ENABLED:
+            _verif.emit("solve_begin", solver=self, max_iterations=max_iterations)
         for _ in range(max_iterations):
             self.iteration += 1
             new_values, conv = self._iteration_step()
             self.values = new_values
+            if _verif.ENABLED:
+                _verif.emit("sweep", solver=self, conv=conv)
 
             logger.info(
                 f"Iteration {self.iteration}: {self._convergence_desc}: {conv:{self.convergence_format}}"
@@ -511,6 +516,8 @@ class ValueIteration(Solver, CheckpointMixin):
                 logger.info(
                     f"Convergence threshold reached at iteration {self.iteration}"
                 )
+                if _verif.ENABLED:
+                    _verif.emit("converged", solver=self)
                 break
 
             if (
@@ -532,6 +539,8 @@ class ValueIteration(Solver, CheckpointMixin):
         logger.info("Policy extracted")
 
         logger.success("Value iteration completed")
+        if _verif.ENABLED:
+            _verif.emit("solve_end", solver=self)
         return self.solver_state
 
     def _restore_state_from_checkpoint(self, solver_state: SolverState) -> None:
